@@ -66,7 +66,7 @@ def gen_cases(tier, seed):
     r = gen.rng(seed, "c18")
     n = 40 if tier == "quick" else 2400
     for i in range(n):
-        yield {"kind": "fit", "seed": r.randrange(1 << 30), "order": i % 4, "weights": ["sparse", "dense", "sparse-with-first", "single", "decades"][(i // 4) % 5], "kernel": "shipped" if i % 5 else "user", "entry": ["raw", "isotherm"][i % 2]}
+        yield {"kind": "fit", "seed": r.randrange(1 << 30), "order": i % 4, "weights": ["sparse", "dense", "sparse-with-first", "single", "decades", "blank"][(i // 4) % 6], "kernel": "shipped" if i % 5 else "user", "entry": ["raw", "isotherm"][i % 2]}
     # kernels with as few pore widths as the spline order (or fewer)
     for rep in range(1 if tier == "quick" else 12):
         for nwk, order in ((2, 0), (2, 1), (2, 2), (2, 3), (3, 2), (3, 3), (4, 3)):
@@ -170,14 +170,17 @@ def _run_fit(case, ctx):
     w = _weights(r, nw, case["weights"])
     p = _grid(r, k)
     n = _synth(k, w, p)
-    if numpy.max(n) <= 0:
+    if case["weights"] == "blank":
+        # a blank run (non-porous sample, empty cell): all weights zero is a non-negative combination too
+        n = numpy.zeros(len(p))
+    elif numpy.max(n) <= 0:
         return
     order = case["order"]
     from pgverif.core import _h
     dg = _h([case["kernel"], list(numpy.round(w, 6)), len(p), order])
     exact = True
     n_arg = n
-    if case["seed"] % 5 == 3:
+    if case["seed"] % 5 == 3 and case["weights"] != "blank":
         # whole-number readings in an integer column: no longer an exact combination (not judged as one), but still data whose
         # reported fit is the kernel-weighted sum of the reported distribution
         n_arg = numpy.rint(n / numpy.max(n) * 500).astype(numpy.int64)
@@ -219,6 +222,9 @@ def _run_fit(case, ctx):
     cap = _CAP[-1]
     raw_w = cap["dist"] * numpy.ediff1d(cap["widths"], to_begin=cap["widths"][0])
     key = "psd_dft_kernel_fit"
+    if not (numpy.all(numpy.isfinite(dist)) and numpy.all(numpy.isfinite(cum)) and numpy.all(numpy.isfinite(fitted))):
+        ctx.violation(key + "/non-finite-result", "the reported distribution / cumulative volume / fitted isotherm contains NaN or infinity", order=order, weights=case["weights"], dist=dist[:4], cum=cum[:4])
+        return
     # (1) non-negativity
     if numpy.any(raw_w < -1e-9 * (numpy.max(numpy.abs(raw_w)) + 1e-300)):
         ctx.violation(key + "/negative-weights", "the fitted kernel weights are negative", min=float(raw_w.min()))
@@ -235,7 +241,7 @@ def _run_fit(case, ctx):
     # (3) the fit reproduces an exact combination
     dev = float(numpy.max(numpy.abs(fitted - n)))
     ctx.count("fit_quality", "dev<=%s" % ("1e-3" if dev <= 1e-3 * scale else "5e-3" if dev <= 5e-3 * scale else "2e-2" if dev <= 2e-2 * scale else "worse"))
-    ctx.count("fit_deviation_decade", "1e%d x max loading" % (int(math.floor(math.log10(dev / scale))) if dev > 0 else -99))
+    ctx.count("fit_deviation_decade", "1e%d x max loading" % (int(math.floor(math.log10(dev / scale))) if dev > 0 and scale > 0 else -99))
     if exact and dev > 1e-9 * scale:
         ctx.violation(key + "/fit-does-not-reproduce-input", "an exact non-negative combination of kernel isotherms is not reproduced within the optimiser tolerance", max_dev=dev, scale=scale, kernel=case["kernel"],
                       weights=case["weights"], npoints=len(p))
@@ -342,6 +348,17 @@ def _run_range(case, ctx):
         ctx.count("range", "above by %s" % (excess if isinstance(excess, str) else "1e%d" % math.floor(math.log10(excess))))
     else:
         p2[0] = -abs(p2[0])
+    # the offending reading may sit anywhere in the recording (an overshoot in the middle of a run, a run recorded downwards)
+    arrangement = r.choice(["at-the-end", "in-the-middle", "descending"])
+    bad_i = len(p2) - 1 if which == "above" else 0
+    if arrangement == "in-the-middle":
+        j = len(p2) // 2
+        p2[[bad_i, j]] = p2[[j, bad_i]]
+        n = numpy.array(n, dtype=float)
+        n[[bad_i, j]] = n[[j, bad_i]]
+    elif arrangement == "descending":
+        p2, n = p2[::-1].copy(), numpy.array(n, dtype=float)[::-1].copy()
+    ctx.count("range", "offending-point-" + arrangement)
     res = _call(pk.psd_dft_kernel_fit, p2, n, path, 2)
     ctx.case(["range", which, case["seed"]])
     ctx.count("range", which)
